@@ -52,7 +52,8 @@ Inductive op :=
 | Attach (data : rpm_curve)
 | SetMin (v : Z) (force : bool)
 | SetStart (v : Z) (force : bool)
-| SetMax (v : Z) (force : bool).
+| SetMax (v : Z) (force : bool)
+| UpdateCurve (k : Z) (r : f64).   (* fan.UpdateFanRpmCurveValue(k, r): what the RPM monitor does every poll *)
 
 (* error codes of a call: 0 = nil, 1 = os.ErrInvalid *)
 Definition step_with (att : fan -> rpm_curve -> option fan) (f : fan) (o : op) : fan * Z :=
@@ -61,6 +62,7 @@ Definition step_with (att : fan -> rpm_curve -> option fan) (f : fan) (o : op) :
   | SetMin v b => (SetMinPwm f v b, 0)
   | SetStart v b => (SetStartPwm f v b, 0)
   | SetMax v b => (SetMaxPwm f v b, 0)
+  | UpdateCurve _ _ => (f, 0)        (* changes the curve data only, never a limit *)
   end.
 Definition step := step_with attachL.
 Definition step_old := step_with attach_old.
@@ -80,5 +82,5 @@ Definition run_obs := run_obs_with step.
 Definition run_obs_old := run_obs_with step_old.
 
 Definition forced (o : op) : bool :=
-  match o with Attach _ => false | SetMin _ b | SetStart _ b | SetMax _ b => b end.
+  match o with Attach _ | UpdateCurve _ _ => false | SetMin _ b | SetStart _ b | SetMax _ b => b end.
 Definition is_attach (o : op) : bool := match o with Attach _ => true | _ => false end.
